@@ -127,7 +127,7 @@ func genComponents(t *rapid.T) Components {
 }
 
 var charOps = []string{"ins", "del", "sub"}
-var segOps = []string{"delseg", "dupseg", "insseg", "subseg", "swapseg", "trunc", "append"}
+var segOps = []string{"delseg", "dupseg", "insseg", "subseg", "swapseg", "trunc", "append", "cutprefix", "cutprefix-rel"}
 
 const editChars = "abcdef0123456789ghzAFZ_-.:/ "
 
@@ -177,7 +177,10 @@ func apply(p string, e Edit) string {
 	}
 	segs := strings.Split(p, "/") // segs[0] == "" (leading slash)
 	n := len(segs) - 1            // real segments are segs[1..n]
-	idx := n - i%n                // 1..n, counted from the end
+	if n < 2 {
+		return p
+	}
+	idx := n - i%n // 1..n, counted from the end
 	var out []string
 	switch e.Op {
 	case "delseg":
@@ -204,6 +207,14 @@ func apply(p string, e Edit) string {
 		out = append(out, segs[:len(segs)-k]...)
 	case "append":
 		out = append(append(out, segs...), e.S)
+	case "cutprefix", "cutprefix-rel":
+		// Drop the leading 1..n-1 segments, keeping ("/x/y") or dropping ("x/y")
+		// the leading slash: little or nothing is left in front of the marker.
+		k := 1 + i%(n-1)
+		if e.Op == "cutprefix" {
+			out = append(out, "")
+		}
+		out = append(out, segs[1+k:]...)
 	default:
 		return p
 	}
@@ -380,31 +391,103 @@ const (
 	clAmbig    = "lenient-only:ambiguous" // several lenient readings
 )
 
+// checkFunctions judges every parsing function on its own: whatever a function
+// accepts must be spelled by the text (kraken's paths_test.go demands rejection
+// at the level of the individual functions too).
+func checkFunctions(p string) string {
+	shapes := parseLenient(p, modeShape)
+	lenient := parseLenient(p, modeLenient)
+	find := func(rs []*parsed, ok func(*parsed) bool) bool {
+		for _, r := range rs {
+			if ok(r) {
+				return true
+			}
+		}
+		return false
+	}
+	if tag, cur, err := dockerregistry.GetManifestTag(p); err == nil {
+		if !find(shapes, func(r *parsed) bool {
+			return r.Tag == tag && (cur && r.Kind == kTagCurrent || !cur && r.Kind == kTagIndex)
+		}) {
+			return fmt.Sprintf("GetManifestTag accepts a path that does not spell that tag link (tag=%q isCurrent=%v path=%q)", tag, cur, p)
+		}
+	}
+	if d, err := dockerregistry.GetManifestDigest(p); err == nil {
+		if !find(lenient, func(r *parsed) bool { return r.Hex == d.Hex() && (r.Kind == kTagIndex || r.Kind == kRevision) }) {
+			return fmt.Sprintf("GetManifestDigest accepts a path that does not spell that manifest link (digest=%q path=%q)", d.Hex(), p)
+		}
+	}
+	if d, err := dockerregistry.GetLayerDigest(p); err == nil {
+		if !find(lenient, func(r *parsed) bool { return r.Hex == d.Hex() && (r.Kind == kLayerLink || r.Kind == kLayerData) }) {
+			return fmt.Sprintf("GetLayerDigest accepts a path that does not spell that layer path (digest=%q path=%q)", d.Hex(), p)
+		}
+	}
+	if d, err := dockerregistry.GetBlobDigest(p); err == nil {
+		if !find(lenient, func(r *parsed) bool { return r.Hex == d.Hex() && r.Kind == kBlobData }) {
+			return fmt.Sprintf("GetBlobDigest accepts a path that does not spell that blob path (digest=%q path=%q)", d.Hex(), p)
+		}
+	}
+	if id, err := dockerregistry.GetUploadUUID(p); err == nil {
+		if !find(shapes, func(r *parsed) bool {
+			return r.UUID == id && (r.Kind == kUploadData || r.Kind == kUploadStart || r.Kind == kHashAlgo || r.Kind == kHashOffset)
+		}) {
+			return fmt.Sprintf("GetUploadUUID accepts a path that does not spell that upload path (id=%q path=%q)", id, p)
+		}
+	}
+	if algo, off, err := dockerregistry.GetUploadAlgoAndOffset(p); err == nil {
+		if !find(shapes, func(r *parsed) bool { return r.Kind == kHashOffset && r.Algo == algo && r.Offset == off }) {
+			return fmt.Sprintf("GetUploadAlgoAndOffset accepts a path that does not spell that hash state (algo=%q offset=%q path=%q)", algo, off, p)
+		}
+	}
+	// ParsePath: for _layers, blobs and _uploads the classification itself is
+	// shape-checked (paths_test.go); for _manifests it is documented as loose
+	// ("/.+/link") and only judged together with the extractors.
+	if pt, st, err := dockerregistry.ParsePath(p); err == nil && string(pt) != "_manifests" {
+		if !find(shapes, func(r *parsed) bool {
+			t, s := typeOf(r.Kind)
+			return t == string(pt) && s == string(st)
+		}) {
+			return fmt.Sprintf("ParsePath classifies a path as (%s,%s) although it does not have that shape (path=%q)", pt, st, p)
+		}
+	}
+	return ""
+}
+
 // judge applies the oracle to an arbitrary path text.
 func judge(p string) (violation string, class string) {
 	if want := parseStrict(p); want != nil {
-		return checkValid(p, want), clValid
-	}
-	refs := parseLenient(p)
-	got := accepted(p)
-	if len(refs) == 0 {
-		if got != nil {
-			return fmt.Sprintf("a path that does not follow the layout is accepted as %s (path=%q parsed=%+v)", got.Kind, p, *got), clReject
+		if v := checkValid(p, want); v != "" {
+			return v, clValid
 		}
-		return "", clReject
+		return checkFunctions(p), clValid
+	}
+	refs := parseLenient(p, modeLenient)
+	got := accepted(p)
+	switch {
+	case len(refs) == 0:
+		class = clReject
+	case got == nil:
+		class = clLenientR
+	case len(refs) > 1:
+		class = clAmbig
+	default:
+		class = clLenientA
+	}
+	if v := checkFunctions(p); v != "" {
+		return v, class
 	}
 	if got == nil {
-		return "", clLenientR
+		return "", class
+	}
+	if len(refs) == 0 {
+		return fmt.Sprintf("a path that does not follow the layout is accepted as %s (path=%q parsed=%+v)", got.Kind, p, *got), class
 	}
 	for _, r := range refs {
 		if sameTail(got, r) {
-			if len(refs) > 1 {
-				return "", clAmbig
-			}
-			return "", clLenientA
+			return "", class
 		}
 	}
-	return fmt.Sprintf("accepted path is parsed into components its text does not spell (path=%q parsed=%+v layout reading=%+v)", p, *got, *refs[0]), clLenientA
+	return fmt.Sprintf("accepted path is parsed into components its text does not spell (path=%q parsed=%+v layout reading=%+v)", p, *got, *refs[0]), class
 }
 
 // ---------------------------------------------------------------------- runs
